@@ -31,3 +31,246 @@ def rule_charge_spellings(ck, repo, R):
         ck.decide(v == sign * mag, R, f'value:{k}', v, f'charge_dict[{k!r}] = {v}, the spelling denotes {sign * mag}', file=m.relpath, line=line)
     ck.floor(R, 40)
     return cd, lang, chg
+
+
+def _ladder_returns(func, var='bond'):
+    """{order constant | 'else': set of returned string constants} for an if/elif ladder on `var == K`"""
+    from .astutil import if_chain
+    tops = [s for s in func.node.body if isinstance(s, ast.If) and any(t is not None and src(t).startswith(f'{var} == ') for t, _ in if_chain(s))]
+    if len(tops) != 1:
+        raise AnalysisError(f'{func.fq}: `{var} == K` ladder not found')
+    out = {}
+    for test, blk in if_chain(tops[0]):
+        key = 'else'
+        if test is not None:
+            if not (isinstance(test, ast.Compare) and src(test.left) == var and isinstance(test.ops[0], ast.Eq) and isinstance(test.comparators[0], ast.Constant)):
+                raise AnalysisError(f'{func.fq}: ladder guard `{src(test)}` not recognised')
+            key = test.comparators[0].value
+        rets = set()
+        for n in ast.walk(ast.Module(body=blk, type_ignores=[])):
+            if isinstance(n, ast.Return):
+                if isinstance(n.value, ast.Constant) and isinstance(n.value.value, str):
+                    rets.add(n.value.value)
+                elif isinstance(n.value, ast.IfExp):
+                    for v in (n.value.body, n.value.orelse):
+                        if isinstance(v, ast.Constant):
+                            rets.add(v.value)
+                elif n.value is not None:
+                    raise AnalysisError(f'{func.fq}: returned bond token `{src(n.value)}` is not a constant')
+        out[key] = (rets, blk)
+    return out
+
+
+def rule_smiles_codebooks(ck, repo, R):
+    ck.rule(R, 'writer and reader code books are mutually inverse: charge_str -> atom_re charge group -> charge_dict gives the charge back; '
+               'bond symbols of _format_bond map back through replace_dict and a single bond between two aromatic atoms is written '
+               'explicitly; H / Hn; @ <-> True; ring-closure numbers 1..99 as digit / %nn; unbracketed symbols are symbols the tokenizer '
+               'accepts bare; aromatic (lower-case) symbols the writer can emit are accepted by the reader')
+    tok = repo.module(TOK)
+    smi = repo.module(SMI)
+    cd = module_literal(repo, TOK, 'charge_dict')
+    cs = module_literal(repo, SMI, 'charge_str')
+    names = atom_re_groups(repo)
+    pat = regex_literal(repo, TOK, 'atom_re')
+    lang = group_language(pat, names.index('charge') + 1)
+    line = smi.assigns['charge_str'].lineno
+    for c in range(-4, 5):
+        if c == 0:
+            continue
+        t = cs.get(c)
+        ck.decide(t is not None and t in lang and cd.get(t) == c, R, f'charge:{c}', t,
+                  f'charge {c} is written {t!r}; the reader {"cannot match it" if t not in lang else "reads it as " + repr(cd.get(t))}',
+                  file=smi.relpath, line=line)
+    fa = repo.func(f'{SMI}:MoleculeSmiles._format_atom')
+    uses = [n for n in ast.walk(fa.node) if isinstance(n, ast.Subscript) and src(n.value) == 'charge_str']
+    ck.decide(len(uses) == 1 and src(uses[0].slice) == 'atom.charge', R, 'charge:index', None, '_format_atom no longer indexes charge_str by atom.charge', file=fa.file, line=fa.lineno)
+    # bonds
+    rd = module_literal(repo, TOK, 'replace_dict')
+    fb = repo.func(f'{SMI}:MoleculeSmiles._format_bond')
+    lad = _ladder_returns(fb)
+    ck.require(set(lad) == {4, 1, 2, 3, 'else'}, f'_format_bond ladder covers {sorted(lad, key=str)}')
+    for o, (rets, blk) in lad.items():
+        order = 8 if o == 'else' else o
+        for s in sorted(rets):
+            if s in ('', '/', '\\'):
+                continue
+            ck.decide(rd.get(s) == order, R, f'bond:{order}:{s}', rd.get(s), f'bond order {order} is written {s!r}, the tokenizer reads {s!r} as {rd.get(s)}',
+                      file=fb.file, line=fb.lineno, func=fb.qualname)
+        if order in (2, 3, 8):
+            ck.decide('' not in rets and len(rets) == 1, R, f'bond:{order}:explicit', sorted(rets), f'bond order {order} can be written as {sorted(rets)}; it must always have its own symbol',
+                      file=fb.file, line=fb.lineno, func=fb.qualname)
+    r1, blk1 = lad[1]
+    ck.decide({'/', '\\'} <= r1 and '-' in r1, R, 'bond:1:tokens', sorted(r1), f'single bond tokens are {sorted(r1)}; expected "", "-", "/" and "\\\\"', file=fb.file, line=fb.lineno)
+    arom_guard = False
+    for n in ast.walk(ast.Module(body=blk1, type_ignores=[])):
+        if isinstance(n, ast.If) and 'hybridization' in src(n.test) and '== 4' in src(n.test) and any(isinstance(x, ast.Return) and isinstance(x.value, ast.Constant) and x.value.value == '-' for x in n.body):
+            t = src(n.test)
+            arom_guard = '[n]' in t and '[m]' in t
+    ck.decide(arom_guard, R, 'bond:1:between-aromatic-atoms', None,
+              '_format_bond no longer writes an explicit "-" between two aromatic atoms: cc would be read back as an aromatic bond', file=fb.file, line=fb.lineno, func=fb.qualname)
+    # slash polarity: True -> '/'
+    sl = [n for n in ast.walk(fb.node) if isinstance(n, ast.IfExp) and {src(n.body), src(n.orelse)} == {"'/'", "'\\\\'"}]
+    tk = repo.func(f'{TOK}:_tokenize')
+    up = [n for n in ast.walk(tk.node) if isinstance(n, ast.Compare) and src(n) in ("s == '/'", "s == '\\\\'")]
+    ck.require(len(sl) == 1 and up, 'direction-mark emission / tokenisation not recognised')
+    ck.decide((src(sl[0].body) == "'/'") == (src(up[0]) == "s == '/'"), R, 'bond:direction-polarity', src(sl[0]),
+              f'writer emits {src(sl[0])} while the tokenizer codes Up as `{src(up[0])}`: cis/trans marks flip on re-reading', file=fb.file, line=sl[0].lineno)
+    # hydrogens
+    hl = group_language(pat, names.index('hydrogen') + 1)
+    hw = set()
+    for n in ast.walk(fa.node):
+        if isinstance(n, ast.Assign) and src(n.targets[0]) == 'smi[4]':
+            hw.add(src(n.value))
+    ck.decide(hw == {"'H'", "f'H{atom.implicit_hydrogens}'"} and 'H' in hl and all(f'H{i}' in hl for i in range(2, 5)), R, 'hydrogens', sorted(hw),
+              f'hydrogen tokens written {sorted(hw)} vs read {sorted(hl)}', file=fa.file, line=fa.lineno)
+    ap = repo.func(f'{TOK}:_atom_parse')
+    s = src(ap.node)
+    ck.decide('hydrogen = int(hydrogen[1:])' in s and 'hydrogen = 1' in s and 'hydrogen = 0' in s, R, 'hydrogens:reader', None,
+              '_atom_parse no longer decodes H / Hn / absent as 1 / n / 0', file=ap.file, line=ap.lineno)
+    # closures
+    sm = repo.func(f'{SMI}:Smiles._smiles')
+    heap = [n for n in ast.walk(sm.node) if isinstance(n, ast.Assign) and src(n.targets[0]) == 'heap']
+    ck.require(len(heap) == 1, '_smiles: closure number heap not found')
+    rng = None
+    for n in ast.walk(heap[0].value):
+        if isinstance(n, ast.Call) and src(n.func) == 'range':
+            try:
+                rng = [ast.literal_eval(a) for a in n.args]
+            except Exception:
+                pass
+    fc = repo.func(f'{SMI}:Smiles._format_closure')
+    b = [x for x in fc.node.body if isinstance(x, ast.Return)]
+    ok_fmt = len(b) == 1 and src(b[0].value) == "str(c) if c < 10 else f'%{c}'"
+    ck.decide(rng is not None and len(rng) == 2 and rng[0] >= 1 and rng[1] <= 100 and ok_fmt, R, 'closures', rng,
+              f'closure numbers {rng} written by `{src(b[0].value) if b else None}`: the tokenizer reads one digit or % followed by exactly two digits (1..99)',
+              file=fc.file, line=fc.lineno)
+    ck.decide('len(token) == 2' in src(tk.node), R, 'closures:reader', None, 'tokenizer no longer reads exactly two digits after %', file=tk.file, line=tk.lineno)
+    # organic subset
+    org = module_literal(repo, SMI, 'organic_set')
+    bare = set()
+    for n in ast.walk(tk.node):
+        if isinstance(n, ast.Compare) and isinstance(n.ops[0], ast.In) and src(n.left) == 's' and isinstance(n.comparators[0], ast.Constant) and \
+                isinstance(n.comparators[0].value, str) and n.comparators[0].value.isalpha() and n.comparators[0].value.isupper():
+            bare |= set(n.comparators[0].value)
+    for n in ast.walk(tk.node):
+        if isinstance(n, ast.Call) and src(n.func) == 'tokens.append' and isinstance(n.args[0], ast.Tuple) and isinstance(n.args[0].elts[1], ast.Constant) and \
+                isinstance(n.args[0].elts[1].value, str):
+            bare.add(n.args[0].elts[1].value)
+    ck.decide(org <= bare, R, 'organic-subset', sorted(org), f'writer leaves {sorted(org - bare)} unbracketed but the tokenizer does not accept them bare', file=smi.relpath,
+              line=smi.assigns['organic_set'].lineno)
+    # aromatic symbols
+    arom_bare = set()
+    for n in ast.walk(tk.node):
+        if isinstance(n, ast.Compare) and isinstance(n.ops[0], ast.In) and src(n.left) == 's' and isinstance(n.comparators[0], ast.Constant) and \
+                isinstance(n.comparators[0].value, str) and n.comparators[0].value.islower():
+            arom_bare |= set(n.comparators[0].value)
+    arom_br = set()
+    for n in ast.walk(ap.node):
+        if isinstance(n, ast.Compare) and isinstance(n.ops[0], ast.In) and src(n.left) == 'element' and isinstance(n.comparators[0], ast.Tuple):
+            arom_br |= set(ast.literal_eval(n.comparators[0]))
+    kek = repo.func('chython.algorithms.aromatics.kekule:Kekule.__prepare_rings')
+    km = repo.module('chython.algorithms.aromatics.kekule')
+    consts = {k: ast.literal_eval(v) for k, v in km.assigns.items() if isinstance(v, ast.Constant) and isinstance(v.value, int)}
+    from .tables import STANDARD_SYMBOLS
+    writer_arom = {STANDARD_SYMBOLS[z - 1].lower() for z in consts.values() if 1 <= z <= 118}
+    ck.decide(writer_arom <= arom_br and {x for x in writer_arom if x.capitalize() in org} <= arom_bare, R, 'aromatic-symbols', sorted(writer_arom),
+              f'aromatic atoms the Kekule/Thiele code admits {sorted(writer_arom)}; reader accepts bracketed {sorted(arom_br)} and bare {sorted(arom_bare)}',
+              file=ap.file, line=ap.lineno)
+    ck.floor(R, 22)
+
+
+def rule_mark_parity(ck, repo, R):
+    ck.rule(R, 'writer and reader map the chirality mark the same way (True <-> "@") and both reverse it under the same predicate: the chiral '
+               'atom has implicit hydrogens and no preceding atom in the written order (first atom of each component); CX radical indices are '
+               'positions in the written order on both sides')
+    fa = repo.func(f'{SMI}:MoleculeSmiles._format_atom')
+    marks = [n for n in ast.walk(fa.node) if isinstance(n, ast.Assign) and src(n.targets[0]) == 'smi[3]' and isinstance(n.value, ast.IfExp)]
+    ck.require(len(marks) == 3, f'_format_atom: expected three chirality-mark assignments (allene, first atom, normal), found {len(marks)}')
+    parents = {}
+    for p in ast.walk(fa.node):
+        for c in ast.iter_child_nodes(p):
+            parents[c] = p
+    kinds = {}
+    for mk in marks:
+        pol = src(mk.value.body) == "'@'"  # True -> '@'
+        if not {src(mk.value.body), src(mk.value.orelse)} == {"'@'", "'@@'"}:
+            raise AnalysisError(f'_format_atom: chirality mark expression {src(mk.value)} not recognised')
+        p = parents[mk]
+        guard = src(p.test) if isinstance(p, ast.If) and mk in p.body else 'else'
+        kinds[guard] = (pol, mk, src(mk.value.test))
+    first = [g for g in kinds if 'implicit_hydrogens' in g]
+    ck.require(len(first) == 1, '_format_atom: first-atom branch (implicit_hydrogens and ...) not found')
+    g = first[0]
+    others = [k for k in kinds if k != g]
+    ck.decide(all(kinds[k][0] for k in others) and not kinds[g][0], R, 'writer:polarity', {k: v[0] for k, v in kinds.items()},
+              'writer: the normal/allene branches must map True -> "@" and the no-predecessor branch must reverse it', file=fa.file, line=fa.lineno, func=fa.qualname)
+    ck.decide('next((x for x in adjacency)) == n' in g, R, 'writer:predicate', g,
+              f'writer reverses the mark under `{g}`; expected "implicit hydrogens and first atom of the per-component predecessor map"', file=fa.file, line=fa.lineno)
+    # adjacency passed to _format_atom is created per component
+    sm = repo.func(f'{SMI}:Smiles._smiles')
+    vis = [n for n in ast.walk(sm.node) if isinstance(n, ast.Assign) and src(n.targets[0]) == 'visited']
+    wh = [n for n in ast.walk(sm.node) if isinstance(n, ast.While) and src(n.test) == 'True']
+    per_component = bool(vis) and any(vis[0] in ast.walk(w) for w in wh) and src(vis[0].value) == '{start: []}'
+    ck.decide(per_component, R, 'writer:per-component-map', None, 'the predecessor map handed to _format_atom is no longer created per component with the start atom first',
+              file=sm.file, line=sm.lineno)
+    ap = repo.func(f'{TOK}:_atom_parse')
+    rp = [n for n in ast.walk(ap.node) if isinstance(n, ast.Assign) and src(n.targets[0]) == 'stereo']
+    ck.decide(len(rp) == 1 and src(rp[0].value) == "stereo == '@'", R, 'reader:polarity', src(rp[0].value) if rp else None,
+              'reader no longer maps "@" -> True', file=ap.file, line=ap.lineno)
+    pm = repo.func('chython.files.daylight.smiles:postprocess_molecule')
+    inv = [n for n in ast.walk(pm.node) if isinstance(n, ast.If) and any(src(s) == 's = not s' for s in n.body)]
+    ck.require(len(inv) == 1, 'postprocess_molecule: chirality reversal not found')
+    t = src(inv[0].test)
+    from .astutil import conjuncts
+    cs = [src(c) for c in conjuncts(inv[0].test)]
+    ck.decide(any('implicit_hydrogens' in c for c in cs), R, 'reader:needs-implicit-h', t, 'reader reverses the mark without testing implicit hydrogens', file=pm.file, line=inv[0].lineno)
+    idx0 = any(c in ('not i', 'i == 0') for c in cs)
+    member = [c for c in cs if c.startswith('i in ') and 'data[' in c]
+    ck.decide(not idx0 and len(member) == 1, R, 'reader:predicate', t,
+              f'reader reverses the mark under `{t}`: an index-zero test is only the first atom of the whole string, the writer (and SMILES) reverse for the '
+              f'first atom of every component', file=pm.file, line=inv[0].lineno, func=pm.qualname)
+    if member:
+        key = member[0].split("data[")[1].split(']')[0].strip("'\"")
+        pr = repo.func('chython.files.daylight.parser:parser')
+        adds = [n for n in ast.walk(pr.node) if isinstance(n, ast.Call) and src(n.func) == f'{key}.add']
+        ret_ok = f"'{key}': {key}" in src(pr.node)
+        # one add for "no atoms yet", one for "after a dot"
+        parents = {}
+        for p in ast.walk(pr.node):
+            for c in ast.iter_child_nodes(p):
+                parents[c] = p
+        ctxs = set()
+        for a in adds:
+            child, p = a, parents.get(a)
+            while p is not None and not isinstance(p, ast.For):
+                if isinstance(p, ast.If):
+                    ctxs.add(('' if child in p.body else 'not ') + src(p.test))
+                child, p = p, parents.get(p)
+        ck.decide(ret_ok and len(adds) == 2 and 'not atoms' in ctxs and any(c.startswith('not bt in (1, 10, 12)') or c == 'not bt in (1, 10, 12)' for c in ctxs), R, 'reader:starts-set', sorted(ctxs),
+                  f'parser fills `{key}` under {sorted(ctxs)}; expected exactly: no atom yet, and atom after a dot', file=pr.file, line=pr.lineno, func=pr.qualname)
+    # CX radicals
+    fx = repo.func(f'{SMI}:MoleculeSmiles._format_cxsmiles')
+    ck.decide('for n, m in enumerate(order) if self._atoms[m].is_radical' in src(fx.node), R, 'cx:writer-positions', None,
+              'CX radical indices are no longer positions in the written atom order', file=fx.file, line=fx.lineno)
+    st = repo.func(f'{SMI}:Smiles.__str__')
+    ck.decide('self._format_cxsmiles(order)' in src(st.node), R, 'cx:always-appended', None, '__str__ no longer appends the CX block', file=st.file, line=st.lineno)
+
+
+def rule_field_coverage(ck, repo, R):
+    ck.rule(R, 'the atom token carries every attribute the property lists: the writer reads element, isotope, charge, radical (CX block), implicit '
+               'hydrogens and stereo; the reader produces the same set of keys')
+    fa = repo.func(f'{SMI}:MoleculeSmiles._format_atom')
+    reads = {n.attr for n in ast.walk(fa.node) if isinstance(n, ast.Attribute) and src(n.value) == 'atom'}
+    need = {'isotope', 'charge', 'implicit_hydrogens', 'stereo', 'atomic_symbol', 'is_radical', 'hybridization'}
+    ck.decide(need <= reads, R, 'writer-reads', sorted(reads), f'_format_atom no longer reads {sorted(need - reads)}: molecules differing in it print alike', file=fa.file, line=fa.lineno, func=fa.qualname)
+    ap = repo.func(f'{TOK}:_atom_parse')
+    ret = [n for n in ast.walk(ap.node) if isinstance(n, ast.Return) and isinstance(n.value, ast.Tuple)]
+    keys = set()
+    if ret and isinstance(ret[-1].value.elts[1], ast.Dict):
+        keys = {k.value for k in ret[-1].value.elts[1].keys}
+    want = {'element', 'isotope', 'parsed_mapping', 'charge', 'implicit_hydrogens', 'stereo'}
+    ck.decide(keys == want, R, 'reader-keys', sorted(keys), f'_atom_parse returns keys {sorted(keys)}, expected {sorted(want)}', file=ap.file, line=ap.lineno, func=ap.qualname)
+    # bracket decision: anything non-default forces brackets
+    s = src(fa.node)
+    ck.decide("any(smi) or atom.atomic_symbol not in organic_set or atom.is_radical or kwargs.get('hydrogens', False)" in s, R, 'bracket-condition', None,
+              'the bracket condition no longer covers isotope/stereo/charge/map (any(smi)), non-organic symbols and radicals', file=fa.file, line=fa.lineno)
